@@ -3,7 +3,7 @@
 use crate::rng::Rng;
 use crate::rt::*;
 
-pub const ATOMS: [&str; 8] = ["a", "b", "foo", "Alfred", "x1", "a b", "snake_case", "big red dog"];
+pub const ATOMS: [&str; 11] = ["a", "b", "foo", "Alfred", "x1", "a b", "snake_case", "big red dog", "Zürich", "日本", "père Noël"];
 pub const FUNCTORS: [&str; 5] = ["p", "q", "foo", "bar_1", "r2"];
 pub const VARS: [&str; 5] = ["$X", "$Y", "$Z", "$Head", "$T1"];
 
@@ -13,7 +13,9 @@ pub fn rand_var(r: &mut Rng) -> T { var(VARS[r.below(VARS.len())]) }
 pub fn rand_number(r: &mut Rng) -> T {
     match r.below(6) {
         0 => T::Int(0), 1 => T::Int(r.below(100) as i64), 2 => T::Int(1_000_000 + r.below(1000) as i64),
-        3 => T::Float(1.5), 4 => T::Float(0.25 + r.below(8) as f64), _ => T::Float(3.14159),
+        3 => T::Float(1.5), 4 => T::Float(0.25 + r.below(8) as f64),
+        // floats whose shortest round-trip text has 16-17 significant digits
+        _ => [3.14159, 0.30000000000000004, 1.0833333333333333, 2.0000000000000004, 123456.78901234567][r.below(5)].into_t(),
     }
 }
 
@@ -31,6 +33,9 @@ pub fn rand_term(r: &mut Rng, depth: usize) -> T {
     }
 }
 
+trait IntoT { fn into_t(self) -> T; }
+impl IntoT for f64 { fn into_t(self) -> T { T::Float(self) } }
+
 pub fn rand_arith(r: &mut Rng) -> T {
     let name = ["add", "subtract", "multiply", "divide"][r.below(4)];
     let n = r.range(2, 3);
@@ -39,7 +44,13 @@ pub fn rand_arith(r: &mut Rng) -> T {
 
 pub fn rand_simple_goal(r: &mut Rng, depth: usize) -> G {
     match r.below(16) {
-        0..=4 => { let n = r.range(0, 3); G::Call(FUNCTORS[r.below(FUNCTORS.len())].to_string(), (0..n).map(|_| rand_term(r, depth)).collect()) }
+        0..=4 => {
+            let n = r.range(0, 3);
+            let mut args: Vec<T> = (0..n).map(|_| rand_term(r, depth)).collect();
+            // now and then a function term as an argument of a user predicate
+            if n > 0 && r.chance(1, 8) { let k = r.below(n); args[k] = rand_arith(r); }
+            G::Call(FUNCTORS[r.below(FUNCTORS.len())].to_string(), args)
+        }
         5 | 6 => G::Unify(rand_term(r, depth), rand_term(r, depth)),
         7 => G::Unify(rand_var(r), rand_arith(r)),
         8 | 9 => G::Cmp(Cmp::ALL[r.below(5)], if r.chance(1, 2) { rand_var(r) } else { rand_number(r) }, if r.chance(1, 2) { rand_number(r) } else { rand_atom(r) }),
@@ -73,7 +84,7 @@ pub fn rand_clause(r: &mut Rng, depth: usize) -> Clause {
 pub fn terms_of_size(n: usize) -> Vec<T> {
     if n == 0 { return vec![]; }
     if n == 1 {
-        return vec![atom("a"), atom("a b"), T::Int(7), T::Float(1.5), var("$X"), var("$Y"), T::Anon, list(vec![])];
+        return vec![atom("a"), atom("a b"), T::Int(7), T::Float(1.5), var("$X"), var("$Y"), T::Anon, list(vec![]), atom("Zürich"), T::Float(0.30000000000000004)];
     }
     let mut out = vec![];
     // f(t)  [t]  with |t| = n-1
